@@ -793,6 +793,53 @@ fn check_weeks(ctx: &Ctx, civ: &Civil, lt: &crate::refmodel::lunar::LunTable) {
   ctx.subspace(&format!("linear unit SolarWeek: every week of {} months (years 2, 1582, 2024, 9998) x 7 week starts x step pairs from {:?}", months.len(), alpha), done, months.len() as u64 * 7);
 }
 
+/// Values taken out of a list are values too: every element of SixtyCycleMonth::get_days() stepped by 0, +-1, 7, -30
+/// must be the sexagenary day built afresh from the civil date that many days away.
+fn check_listed_sixty_days(ctx: &Ctx) {
+  let years: Vec<isize> = if ctx.quick() { vec![2, 1582, 2024, 9998] } else { (2..=9998).step_by(37).chain([1582, 2024]).collect() };
+  let steps = [0isize, 1, -1, 7, -30];
+  let done = par_chunks(ctx, 0, years.len() * 12, 1, |a, b, loc| {
+    for j in a..b {
+      let (y, k) = (years[j / 12], (j % 12) as isize);
+      let key = format!("{:04}/{:02}", y, k);
+      let rp = vec!["listed60".to_string(), y.to_string(), k.to_string()];
+      let r = guard(|| {
+        let ds = SixtyCycleMonth::from_index(y, k).get_days();
+        let base = ds[0].get_solar_day();
+        let mut bad: Vec<String> = Vec::new();
+        let mut n_ok = 0u64;
+        for (i, x) in ds.iter().enumerate() {
+          for n in steps {
+            let got = x.next(n);
+            let want = base.next(i as isize + n).get_sixty_cycle_day();
+            if got.to_string() != want.to_string() || got.get_solar_day() != want.get_solar_day() || (n == 0 && got != *x) {
+              if bad.len() < 3 {
+                bad.push(format!("element #{} ({}, {}).next({}) = {} on {}; built afresh from the civil date: {} on {}", i, x, x.get_solar_day(), n, got, got.get_solar_day(), want, want.get_solar_day()));
+              }
+            } else {
+              n_ok += 1;
+            }
+          }
+        }
+        (bad, n_ok)
+      });
+      loc.states += 1;
+      match r {
+        Ok((bad, n_ok)) => {
+          loc.transitions += n_ok;
+          if bad.is_empty() {
+            loc.oc("listed_sixty_days_ok");
+          } else {
+            ctx.violation("listed_next", key, bad.join("; "), rp);
+          }
+        }
+        Err(m) => ctx.violation("listed_next", key, format!("panics: {}", m), rp),
+      }
+    }
+  });
+  ctx.subspace(&format!("listed values: every element of SixtyCycleMonth::get_days() of {} Lichun-years x 12 months x steps {:?}: stepped element = sexagenary day built afresh from the civil date", years.len(), steps), done, years.len() as u64 * 12);
+}
+
 pub fn run(ctx: &Ctx) {
   let civ = Civil::build();
   ctx.assume("cyclic types: published name arrays (pub static *_NAMES) are the index<->name reference; their contents are judged by C19. Linear units: ordinal models (2*year+half, 4*year+quarter, 12*year+month-1, civil day ordinal, instant ordinal, 12*year+month index for sexagenary months incl. year -1); lunar months, terms, weeks, festivals are stepped exhaustively in C03, C06, C14, C20 (here: every week of 10 lunar years / 4 civil years)");
@@ -832,6 +879,7 @@ pub fn run(ctx: &Ctx) {
   }
   check_weeks(ctx, &civ, &lt);
   check_hours_on_jie_days(ctx, &civ);
+  check_listed_sixty_days(ctx);
   if ctx.primary() {
     for c in cs.iter().take(3) {
       let r = guard(|| (c.step2)(1, -(c.names.len() as isize) - 1, 1000003));
@@ -861,6 +909,7 @@ pub fn replay(ctx: &Ctx, args: &[String]) {
       check_cycle(ctx, c, &pool, &mut l);
     }
     "jiehours" => check_hours_on_jie_days(ctx, &civ),
+    "listed60" => check_listed_sixty_days(ctx),
     "weeks" => {
       let lt = crate::refmodel::lunar::LunTable::build(ctx, 0, 9999);
       check_weeks(ctx, &civ, &lt);
